@@ -46,3 +46,14 @@ package goja
 //@   site newRegExpp#1 requires arg1 != n.pattern [a-program-s-pattern-is-copied-not-handed-out]
 // the instruction itself is part of the Program: its operands are set where the compiler allocates it
 //@ stable newRegexp.pattern newRegexp.src
+
+// Last clause of C16: an Object handed to a different Runtime is rejected. Runtime.ToValue makes the
+// check; the Callable returned by AssertFunction hands its arguments to the function's Runtime without
+// it. Stated on that Callable (the first function literal of AssertFunction) for its first argument;
+// it does not hold (recorded in /verif/known_findings.json).
+//@ func AssertFunction$1
+//@   props C16
+//@   maypanic
+//@   freevars obj *Object
+//@   requires obj != nil && obj.runtime != nil && obj.runtime.vm != nil
+//@   ensures len(args) > 0 && specForeignObject(args[0], obj.runtime) ==> err != nil [an-object-of-another-runtime-is-rejected]
